@@ -336,6 +336,9 @@ func (r *testifyRun) call(task, oi int, op Op, ops []Op) {
 		// fresh pointers)
 		seed, prefix, nargs, base = ops[op.Ref-1].Seed, fmt.Sprintf("a%d.%d", task, op.Ref-1), ops[op.Ref-1].NArgs, (task*64+op.Ref)*100000
 	}
+	if op.Ref < 0 && -op.Ref <= len(r.cs.Setup) {
+		nargs = r.cs.Setup[-op.Ref-1].NArgs // same number of variadic elements as the shared expectation
+	}
 	g := &Gen{R: NewRng(seed), Prefix: prefix, NilRate: r.cs.NilRate, Base: base}
 	args := genArgs(m, g, nargs-1)
 	if r.ambiguous {
@@ -540,6 +543,14 @@ func RunTestify(reg *Registration, cs *Case) (*Violation, RunStats) {
 	r.resGen = &Gen{R: NewRng(cs.Seed ^ 0xbeef), Prefix: "res", NilRate: cs.NilRate}
 	mockObj := reg.New(r.t)
 	r.mv = reflect.ValueOf(mockObj)
+	for oi, op := range cs.Setup {
+		if op.Kind == "expect" {
+			r.register(-1, oi, op)
+		}
+	}
+	if r.viol != nil {
+		return r.viol, st
+	}
 	sim := simsync.New(cs.Sched)
 	touched := map[string]map[int]bool{}
 	for ti, ops := range cs.Tasks {
@@ -692,6 +703,26 @@ func genTestifyCase(prop string, reg *Registration, cs *Case, ms []methodInfo, r
 	}
 	if len(tok) == 0 {
 		return // no method of this interface can be matched exactly: GenCase draws another mock
+	}
+	if r.Chance(1, 3) {
+		// one expectation, registered up front and matched by Anything, served to several
+		// tasks at once: every caller must still get its own arguments into the callbacks
+		m := ms[r.Intn(len(ms))]
+		if m.Type.NumIn() == 0 {
+			m = tok[r.Intn(len(tok))]
+		}
+		cs.Setup = []Op{{Kind: "expect", Method: m.Name, Seed: r.U64(), Style: pickS(r, []string{"run+return", "run+return", "runandreturn", "providers", "return"}), Match: "anything", NArgs: 1 + r.Intn(4)}}
+		nt := 2 + r.Intn(3)
+		for t := 0; t < nt; t++ {
+			var ops []Op
+			for c := 1 + r.Intn(3); c > 0; c-- {
+				ops = append(ops, Op{Kind: "call", Method: m.Name, Seed: r.U64(), Ref: -1})
+			}
+			cs.Tasks = append(cs.Tasks, ops)
+		}
+		cs.NilRate = 0
+		cs.Sched = schedFor(r)
+		return
 	}
 	hot := tok[r.Intn(len(tok))]
 	nt := 2 + r.Intn(3)
